@@ -17,7 +17,9 @@ Record lrow := mkLrow { lr_actor : N; lr_action : N; lr_n : N; lr_start : Z; lr_
 Record crow := mkCrow { cr_actor : N; cr_action : N; cr_start : Z; cr_dur : Z; cr_status : N }.
 Record clrow := mkClrow { cl_actor : N; cl_n : N; cl_start : Z; cl_end : Z; cl_rc : Z }.
 Record lcase := mkLcase {
-  lc_play : play; lc_ran : nat; lc_count : Z; lc_timeout : Z; lc_tempo : Z;
+  lc_play : play;
+  lc_marks : list (N * bool);        (* per action name: does the script TEXT mark it `?` (names are unique per line and step) *)
+  lc_ran : nat; lc_count : Z; lc_timeout : Z; lc_tempo : Z;
   lc_spot : N;                       (* 0 none, 1 keep running, 2 all exit 0 by themselves, 3 one exits non-zero *)
   lc_launch : Z; lc_exit_t : Z; lc_exit : Z;
   lc_cleanups : list clrow; lc_ledger : list lrow; lc_csv : list crow }.
